@@ -209,10 +209,24 @@ func main() {
 	p := load(repo, ".", "internal/grpcmux", "internal/cmdrunner")
 	f := &facts{js: map[string]interface{}{}}
 
-	extractHandshake(p, f)
+	sort.Slice(extractors, func(i, j int) bool { return extractors[i].name < extractors[j].name })
+	imports := map[string]bool{}
+	for _, e := range extractors {
+		e.fn(p, f)
+		for _, im := range e.imports {
+			imports[im] = true
+		}
+	}
 
 	var sb strings.Builder
-	sb.WriteString("import GoPlugin.Model.Handshake\n")
+	var ims []string
+	for im := range imports {
+		ims = append(ims, im)
+	}
+	sort.Strings(ims)
+	for _, im := range ims {
+		sb.WriteString("import " + im + "\n")
+	}
 	sb.WriteString("/- REGENERATED from the go-plugin source on every run by /verif/extract — do not edit. -/\n")
 	sb.WriteString("namespace GoPlugin.Facts\n")
 	for _, l := range f.lean {
@@ -225,6 +239,19 @@ func main() {
 	writeIfChanged(os.Args[2], sb.String())
 	js, _ := json.MarshalIndent(f.js, "", " ")
 	os.WriteFile(os.Args[3], append(js, '\n'), 0o644)
+}
+
+// extractors are registered from init() functions of the per-topic files.
+type extractor struct {
+	name    string
+	imports []string // Lean modules the emitted definitions need
+	fn      func(p *pkgs, f *facts)
+}
+
+var extractors []extractor
+
+func registerExtractor(name string, imports []string, fn func(p *pkgs, f *facts)) {
+	extractors = append(extractors, extractor{name, imports, fn})
 }
 
 func writeIfChanged(path, content string) {
